@@ -76,6 +76,25 @@ def generate(rng, tier, seed):
                         c = Case(f"fmt{fmt}:deviation", {"ctrl": ctrl, "len": ln})
                         one(c, fmt, nb, pan, mask)
                         yield c
+        # every single-nibble deviation, with every nibble value, of a well-formed block of every PIN length (the fill of
+        # format 4 additionally with random halves that start with runs of the fill digit A)
+        for ln in range(4, 13):
+            halves = [None] if fmt != 4 else [None, [10] * 16, [10] * (14 - ln) + [rng.randrange(16) for _ in range(16 - (14 - ln))],
+                                              [10] + [rng.randrange(16) for _ in range(15)]]
+            for hv in halves:
+                base = [fmt, ln] + body(rng, fmt, ln, total)
+                if hv is not None:
+                    base[16:] = hv
+                positions = range(0, 16) if (hv is None or tier == "thorough") else range(2 + ln, 16)
+                for pos in positions:
+                    for val in range(16):
+                        if val == base[pos] or (tier == "quick" and pos < 2 + ln and val not in (0, 9, 10, 15, (base[pos] + 1) % 16)):
+                            continue
+                        nb = list(base)
+                        nb[pos] = val
+                        c = Case(f"fmt{fmt}:single-nibble", {"len": ln, "pos": pos, "val": val})
+                        one(c, fmt, nb, pan, mask)
+                        yield c
         for _ in range(300 * reps):
             c = Case(f"fmt{fmt}:random", {})
             one(c, fmt, [rng.randrange(16) for _ in range(total)], pan, mask)
